@@ -7,6 +7,7 @@ identity hints).  `run_class` tells which guard of the theorems a run leaves fir
 failure lies inside a recorded finding class, outside the stated domain, or inside the domain of the theorem."""
 import json
 import sys
+import time
 
 import common
 from common import cstr
@@ -15,8 +16,17 @@ from impl import Document, new_tag_node, no_gc
 from _delb.names import deconstruct_clark_notation
 from _delb.nodes import Attribute
 
+# The two comparators run inside Coq because printing (and computing) 61-bit N values is what costs time there: the
+# implementation's checksums go in as hex literals, out come the first differing / first failing step.
 REQ = ("From Coq Require Import List NArith Bool.\nFrom Delb.Base Require Import PyStr.\n"
-       "From Delb.Attr Require Import AttrModel AttrEnc.\n")
+       "From Delb.Attr Require Import AttrModel AttrEnc.\nImport ListNotations.\n"
+       "Fixpoint c11_first_diff (a b : list N) (i : N) : N :=\n"
+       "  match a, b with x :: r, y :: s => if N.eqb x y then c11_first_diff r s (i + 1)%N else i | _, _ => i end.\n"
+       "Fixpoint c11_first_fail (sp im : list N) (i : N) : N :=\n"
+       "  match sp, im with\n"
+       "  | a :: s :: r, a' :: s' :: r' =>\n"
+       "      if ((N.eqb a 0 || N.eqb a a') && N.eqb s s')%bool then c11_first_fail r r' (i + 1)%N else i\n"
+       "  | _, _ => i\n  end.\n")
 KINDS = ["plain", "created-ns", "parsed-default", "parsed-prefixed", "parsed-default-other", "moved"]
 EXTRA_KINDS = ["parsed-collision"]
 NS, NAMES = ["", "d", "e"], ["k", "j", "h"]
@@ -51,11 +61,32 @@ def enc_exc(e):
     return [6] if isinstance(e, KeyError) else [7, EXN.get(type(e).__name__, 11)]
 
 
+CKS_FORMS = {"mersenne61": lambda h, x: (h * 1000003 + x + 1) % MOD, "djb30": lambda h, x: (33 * h + x + 1) & 1073741823}
+CKS = {"step": CKS_FORMS["mersenne61"]}
+
+
 def cks(l):
-    h = 7
+    h, f = 7, CKS["step"]
     for x in l:
-        h = (h * 1000003 + x + 1) % MOD
+        h = f(h, x)
     return h
+
+
+def calibrate(ctx):
+    """which of the known forms of AttrEnc.cks is compiled in (checked on a probe, before anything is hashed)"""
+    probe = [5, 0, 77, 1000, 123456789]
+    got = ctx.coq_eval("c11_cal", REQ, ["(let c := cks [%s]%%N in [N.modulo c 1000003%%N; "
+                                        "N.modulo (N.div c 1000003%%N) 1000003%%N])" % ";".join(map(str, probe))])[0]
+    for name, f in CKS_FORMS.items():
+        CKS["step"] = f
+        if got == [cks(probe) % 1000003, cks(probe) // 1000003 % 1000003]:
+            return name
+    ctx.mismatch("AttrEnc.cks vs the harness' checksum", {"probe": probe, "coq": got})
+    return None
+
+
+def hexlist(l):
+    return "[%s]%%N" % "; ".join("0x%x" % v for v in l) if l else "(@nil N)"
 
 
 # ------------------------------------------------------------------------------------------------ Gallina / python terms
@@ -331,7 +362,8 @@ def fixed_cases():
     for kind in KINDS:
         for a in forms:
             yield kind, [["set", a, "1"], ["get", a], ["contains", a], ["value", 0], ["setvalue", 0, "2"], ["nget", a],
-                         ["len"], ["iter"], ["del", a], ["value", 0], ["ncontains", a], ["pop", a]]
+                         ["len"], ["iter"], ["del", a], ["value", 0], ["ncontains", a], ["pop", a], ["setvalue", 0, "3"],
+                         ["value", 0], ["len"]]
         yield kind, [["update", [[forms[0], "1"], [forms[2], "2"]]], ["nget", forms[1]], ["setlocal", 0, "j"],
                      ["iter"], ["value", 0], ["ndel", ["pair", "d", "j"], "slice"], ["value", 0], ["len"]]
         yield kind, [["nset", forms[2], "1"], ["get", forms[2]], ["setns", 0, "e"], ["contains", ["str", "{e}k"]],
@@ -370,8 +402,11 @@ def explain(ctx, rec, t):
 
 
 def evaluate(ctx, recs, witness_fails):
-    terms = ["(%smodel_trace y ops ++ spec_trace (abs_sys y) hops ++ run_class y ops)" % c_lets(r) for r in recs]
-    vals = ctx.coq_eval("c11_seq", REQ, terms, chunk=150)
+    terms = ["(%s[c11_first_diff (model_trace y ops) %s 0%%N; c11_first_fail (spec_trace (abs_sys y) hops) %s 0%%N]"
+             " ++ run_class y ops)" % (c_lets(r), hexlist(r["mck"]),
+                                       hexlist([x for a, st in zip(r["ans"], r["sck"]) for x in (cks(a), st)]))
+             for r in recs]
+    vals = ctx.coq_eval("c11_seq", REQ, terms, chunk=min(150, max(20, -(-len(terms) // 16))))
     for rec, val in zip(recs, vals):
         n = len(rec["ops"])
         case = {"kind": rec["kind"], "ops": rec["ops"], "mode": rec["mode"]}
@@ -381,16 +416,13 @@ def evaluate(ctx, recs, witness_fails):
             ctx.nontrivial_case((rec["kind"], rec["ops"]))
         if n <= 6 or rec["mode"] == "fixed":
             ctx.sample({"kind": rec["kind"], "ops": rec["ops"], "answers(enc_out)": rec["ans"]}, limit=6)
-        if val is None or len(val) != 3 * n + 2:
+        if val is None or len(val) != 4:
             ctx.mismatch("model vs TagAttributes", {"case": case, "problem": "coqc failed on the case file"})
             continue
-        mt, sp, (c, u) = val[:n], val[n:3 * n], val[3 * n:]
-        bad = next((t for t in range(n) if mt[t] != rec["mck"][t]), None)
+        bad, t, c, u = (None if val[0] >= n else val[0]), (None if val[1] >= n else val[1]), val[2], val[3]
         if bad is not None:
             first = not any(b[0] == "correspondence" for b in ctx.broken)
             ctx.mismatch("model vs TagAttributes", dict(explain(ctx, rec, bad) if first else {"step": bad}, case=case))
-        t = next((t for t in range(n) if not ((sp[2 * t] == 0 or sp[2 * t] == cks(rec["ans"][t]))
-                                              and sp[2 * t + 1] == rec["sck"][t])), None)
         if "finding" in rec:
             witness_fails[rec["finding"]] = t is not None
         if c == 5:
@@ -399,7 +431,7 @@ def evaluate(ctx, recs, witness_fails):
             tally(ctx, "outcome:property-holds" + ("" if c == 0 else "/guard-left"))
             continue
         what = "step %d (%s): answer or dictionary/views differ from the dictionary specification" % (t, rec["ops"][t][0])
-        case.update(step=t, impl_answer=rec["ans"][t])
+        case.update(ops=rec["ops"][:t + 1], step=t, impl_answer=rec["ans"][t])     # the failing prefix is enough
         if c in CLS and u <= t:
             tally(ctx, "outcome:fails-in-class/" + CLS[c])
             ctx.fail(what, dict(case, cls=CLS[c]), classify)
@@ -480,6 +512,8 @@ def witness_recs(ctx, witness_fails):
 def run(ctx, args):
     ctx.regen(["GenWs.v", "GenAttr.v"])
     ctx.build("Props/C11.vo")
+    sys.stderr.write("c11: regen+build %.1f s\n" % (time.time() - ctx.t0))
+    ctx.notes.append("AttrEnc.cks form: %s" % calibrate(ctx))
     witness_fails = {}
 
     def replay_open(f):
@@ -510,8 +544,9 @@ def run(ctx, args):
             for kind, mode in todo[:batch]:
                 recs.append(run_seq(kind, gen=make_gen(ctx.rng, mode), mode=mode))
         todo = todo[batch:]
-        sys.stderr.write("c11: evaluating %d sequences (%d to go)\n" % (len(recs), len(todo)))
+        t0 = time.time()
         evaluate(ctx, recs, witness_fails)
+        sys.stderr.write("c11: %d sequences evaluated in Coq in %.1f s (%d to go)\n" % (len(recs), time.time() - t0, len(todo)))
         recs = []
     check_eq(ctx, [(gen_eq_xml(ctx.rng), gen_eq_xml(ctx.rng)) for _ in range(n_eq)])
     return ctx.finish(
